@@ -13,6 +13,7 @@
   OCSP / encoding/asn1, JWK key parsing, encoding/json paths, compress/flate, the websocket HTTP
   handshake. Wall-clock linearity and stack depth are runtime facts; the theorem is about the cost model.
 -/
+import Oryx.Props.C02
 import Oryx.Props.C03
 import Oryx.Props.C05
 import Oryx.Props.C09
@@ -28,6 +29,14 @@ open Oryx Oryx.Res
 
 /-- AMF0: `Discovery` + `UnmarshalBinary` of every supported type, any nesting. -/
 theorem amf0_never_panics (bs : Bytes) : Amf0.decode bs ≠ .panic := C05.decode_never_panics bs
+
+/-- RTMP chunk reader: `ReadMessage` on any byte string, from any reachable reader state (the invariant
+holds initially and is preserved by every successful read); a whole session of `k` reads likewise.
+The `make([]byte, negative)` guard, the nil dereference of `chunk.message` and the exhaustion of the
+loop fuel (`len + 1` iterations) are unreachable. -/
+theorem rtmp_reader_never_panics (st : Rtmp.Reader) (bs : Bytes) (hst : Rtmp.ReaderInv st) (k : Nat) :
+    Rtmp.readMessage st bs ≠ .panic ∧ Rtmp.readMessages k {} bs ≠ .panic :=
+  ⟨C02.reader_never_panics st bs hst, C02.reader_never_panics_session k bs⟩
 
 /-- RTMP message decoder: `DecodeMessage`/`parseAMFObject` for every message type and transaction
 table, every packet's `UnmarshalBinary`, and the typed waits. -/
